@@ -72,8 +72,10 @@ struct POp {
     int dur_us;   // for timed forms
     bool explicit_unlock = false;  // handle operations: call unlock() on the returned handle (also on a null one) before it dies
     bool during_unwind = false;    // the whole operation runs in a destructor while an unrelated exception propagates
+    bool functor_throws = false;   // modify / read: the functor throws before touching the object; the caller catches and carries on
 };
 struct HarnessUnwind {};
+struct FunctorThrow {};
 template<class F>
 struct RunInDtor {
     F f;
@@ -82,7 +84,7 @@ struct RunInDtor {
 inline std::string pop_json(const POp& p)
 {
     return std::string("{\"op\":\"") + OPN[p.op] + "\",\"id\":" + std::to_string(p.id) + ",\"hold\":" + std::to_string(p.hold) + ",\"us\":" +
-        std::to_string(p.dur_us) + (p.explicit_unlock ? ",\"unlock()\":1" : "") + (p.during_unwind ? ",\"during_unwind\":1" : "") + "}";
+        std::to_string(p.dur_us) + (p.explicit_unlock ? ",\"unlock()\":1" : "") + (p.during_unwind ? ",\"during_unwind\":1" : "") + (p.functor_throws ? ",\"functor_throws\":1" : "") + "}";
 }
 
 struct OpResult {
@@ -243,6 +245,21 @@ void do_op(W& w, const POp& p, int tid, RoundState& rs, std::vector<std::future<
         }
     }
     if constexpr (FAM == F_ORDERED) {
+        // a functor that throws leaves the wrapper as it was - for everybody, the thread that caught the exception included
+        if (p.functor_throws && (p.op == MODIFY || p.op == MODIFY_RET || p.op == READ || p.op == READ_RET)) {
+            try {
+                if (p.op == MODIFY) w.modify([](Cell&) { throw FunctorThrow{}; });
+                else if (p.op == MODIFY_RET) (void)w.modify([](Cell&) -> int { throw FunctorThrow{}; });
+                else if (p.op == READ) w.read([](const Cell&) { throw FunctorThrow{}; });
+                else (void)w.read([](const Cell&) -> int { throw FunctorThrow{}; });
+                vrf::violation("oracle:functor_exception_not_propagated", "{\"op\":" + pop_json(p) + "}");
+            }
+            catch (const FunctorThrow&) {
+            }
+            res.ret = vrf::now();
+            rs.results[tid].push_back(std::move(res));
+            return;
+        }
         // the callable reaches the wrapper as a named lambda, as an rvalue of a value-category-sensitive callable, or as a
         // functor that accepts both T& and const T& (modify must use the first form, read the second)
         if (p.op == MODIFY) {
@@ -424,7 +441,9 @@ inline Program gen_program(vrf::Rng& rng, int fam, int mut, uint32_t allowed, in
                 }
                 break;
             }
-            sc.push_back(POp{op, id++, static_cast<int>(rng.below(4)), durs[rng.below(5)], rng.chance(25), rng.chance(6)});
+            POp np{op, id++, static_cast<int>(rng.below(4)), durs[rng.below(5)], rng.chance(25), rng.chance(6)};
+            np.functor_throws = !np.during_unwind && rng.chance(8);
+            sc.push_back(np);
             if (id >= 28) break;
         }
         P.scripts.push_back(std::move(sc));
